@@ -290,7 +290,9 @@ fn after_check(vm: &Vm<MemoryStorage>, p: Pending, ended: bool, kv: &mut Kv, obs
         if reason == PanicReason::OutOfGas {
             outcome = 2;
         } else if v.must_panic {
-            let adm: BTreeSet<String> = v.admissible.iter().map(|r| format!("{:?}", reason_of(*r))).collect();
+            // a don't-care panic (e.g. a zero-length range at an address outside memory) may fire
+            // before the mandatory one: the order of the checks is unspecified
+            let adm: BTreeSet<String> = v.admissible.iter().chain(v.optional.iter()).map(|r| format!("{:?}", reason_of(*r))).collect();
             ensure!(adm.contains(&format!("{reason:?}")), format!("panic:wrong-reason:{name}:{reason:?}"), "panicked with {reason:?}, admissible {adm:?}; {}", describe());
             outcome = 3;
         } else {
